@@ -169,7 +169,7 @@ func (fr *Frame) execPanic(i *ssa.Panic) {
 	// the blocking-select panic and explicit panics: obligation "unreachable"
 	p := fr.pos(i.Pos())
 	src := fr.vc.eng.srcLine(p)
-	if fr.vc.eng.noSafety {
+	if fr.vc.noSafety {
 		return
 	}
 	name := fmt.Sprintf("%s/panic#%s", relFuncName(fr.vc.fn), hash4(src))
@@ -205,14 +205,13 @@ func (fr *Frame) execAlloc(i *ssa.Alloc) {
 		fr.storeStruct(r, elem, fr.zero(elem))
 	case *types.Array:
 		es := U.sortOf(et.Elem())
-		hs := arrSort(SInt, arrSort(SInt, es))
-		h := vc.heap(fr.st, "E|"+es, hs)
-		vc.setHeap(fr.st, "E|"+es, hs, store(h, r, sx("(as const "+arrSort(SInt, es)+")", fr.zero(et.Elem()))))
+		hn, hs := U.elemHeapT(et.Elem())
+		h := vc.heap(fr.st, hn, hs)
+		vc.setHeap(fr.st, hn, hs, store(h, r, sx("(as const "+arrSort(SInt, es)+")", fr.zero(et.Elem()))))
 	default:
-		es := U.sortOf(elem)
-		hs := arrSort(SInt, es)
-		h := vc.heap(fr.st, "P|"+es, hs)
-		vc.setHeap(fr.st, "P|"+es, hs, store(h, r, fr.zero(elem)))
+		hn, hs := U.ptrHeapT(elem)
+		h := vc.heap(fr.st, hn, hs)
+		vc.setHeap(fr.st, hn, hs, store(h, r, fr.zero(elem)))
 	}
 }
 
@@ -468,7 +467,7 @@ func (fr *Frame) mapHeaps(t types.Type) *mapHeaps {
 	mt := t.Underlying().(*types.Map)
 	U := fr.U()
 	ks, vs := U.sortOf(mt.Key()), U.sortOf(mt.Elem())
-	id := ks + "|" + vs
+	id := typeKey(mt.Key()) + "|" + typeKey(mt.Elem())
 	return &mapHeaps{dom: "MD|" + id, val: "MV|" + id, ln: "ML|" + id,
 		domS: arrSort(SInt, arrSort(ks, SBool)), valS: arrSort(SInt, arrSort(ks, vs)), lnS: arrSort(SInt, SInt), ks: ks, vs: vs, kt: mt.Key(), vt: mt.Elem()}
 }
@@ -562,9 +561,6 @@ func (fr *Frame) newMap(t types.Type) *Val {
 
 // ---- slices
 
-func (fr *Frame) elemHeap(es Sort) (string, Sort) {
-	return "E|" + es, arrSort(SInt, arrSort(SInt, es))
-}
 
 func (fr *Frame) execMakeSlice(i *ssa.MakeSlice) {
 	vc := fr.vc
@@ -575,7 +571,7 @@ func (fr *Frame) execMakeSlice(i *ssa.MakeSlice) {
 	es := U.sortOf(et)
 	fr.safety("makeslice", "len", i.Pos(), and(sx("<=", "0", ln.T), sx("<=", ln.T, cp.T)))
 	r := fr.newRef()
-	hn, hs := fr.elemHeap(es)
+	hn, hs := U.elemHeapT(et)
 	h := vc.heap(fr.st, hn, hs)
 	vc.setHeap(fr.st, hn, hs, store(h, r, sx("(as const "+arrSort(SInt, es)+")", fr.zero(et))))
 	fr.set(i, fr.mkVal(vc.define("mks", SSlice, sx("mkS", r, "0", ln.T, cp.T)), i.Type()))
@@ -763,7 +759,7 @@ func (fr *Frame) execConvert(i *ssa.Convert) {
 	case tok && tb.Info()&types.IsString != 0 && isByteSlice(from):
 		// string(bytes): abstract function of the contents snapshot
 		U.declFun("str.of.bytes", "(declare-fun str.of.bytes ((Array Int Int) Int Int) Str)")
-		hn, hs := fr.elemHeap(SInt)
+		hn, hs := U.elemHeapT(types.Typ[types.Uint8])
 		row := sel(vc.heap(fr.st, hn, hs), sx("sarr", x.T))
 		v := fr.mkVal(vc.define("s", SStr, sx("str.of.bytes", row, sx("soff", x.T), sx("slen", x.T))), i.Type())
 		vc.assume(fr.reach, eq(sx("strlen", v.T), sx("slen", x.T)))
@@ -772,7 +768,7 @@ func (fr *Frame) execConvert(i *ssa.Convert) {
 		// []byte(s): fresh array whose contents are a function of s
 		U.declFun("bytes.of.str", "(declare-fun bytes.of.str (Str) (Array Int Int))")
 		r := fr.newRef()
-		hn, hs := fr.elemHeap(SInt)
+		hn, hs := U.elemHeapT(types.Typ[types.Uint8])
 		h := vc.heap(fr.st, hn, hs)
 		vc.setHeap(fr.st, hn, hs, store(h, r, sx("bytes.of.str", x.T)))
 		fr.set(i, fr.mkVal(vc.define("bs", SSlice, sx("mkS", r, "0", sx("strlen", x.T), sx("strlen", x.T))), i.Type()))
